@@ -131,7 +131,10 @@ class StubsBase:
         })
         self.ext["functools.singledispatch"] = self.ext["functools"].attrs["singledispatch"]
         self.ext["functools.lru_cache"] = self.ext["functools"].attrs["lru_cache"]
-        self.ext["inspect"] = NS("inspect", {"signature": Stub(self.i_signature, "inspect.signature")})
+        # inspect.Parameter.<KIND> / .empty are the same objects the parameters of a signature carry
+        _param_cls = NS("inspect.Parameter", dict(self._sig_kinds, empty=self._sig_empty))
+        self.ext["inspect"] = NS("inspect", {"signature": Stub(self.i_signature, "inspect.signature"), "Parameter": _param_cls,
+                                             "_empty": self._sig_empty})
         nullctx = NS("nullcontext-object")
         nullctx.is_context = True
         self.ext["copy"] = NS("copy", {"copy": Stub(self.f_copy, "copy.copy")})
